@@ -700,6 +700,12 @@ func (c *moduleConfig) clone() *moduleConfig {
 	for key, value := range c.environKeys {
 		ret.environKeys[key] = value
 	}
+	// Copy the slice so that WithEnv on the clone neither overwrites a value
+	// of the receiver nor shares spare capacity with configs derived from it.
+	if c.environ != nil {
+		ret.environ = make([][]byte, len(c.environ))
+		copy(ret.environ, c.environ)
+	}
 	return &ret
 }
 
